@@ -979,8 +979,10 @@ func sfRunWindow(c *engine.Ctx, sc sfCase, srv *sfSrv) {
 func sfWindowCases(c *engine.Ctx) []sfCase {
 	mins := []int64{-2880, -1500, -120, -20, -2, 2, 20, 120, 1500, 2880}
 	const unset = int64(1) // not a grid value: stands for "option absent"
-	nbs := []int64{unset, 0, -5 * 60, -3600, -86400}
-	nas := []int64{unset, 0, 5 * 60, 3600, 86400}
+	// the usual sign widens the window; a server that wants a stricter window configures the other sign (the
+	// skews are added to the bounds as they are)
+	nbs := []int64{unset, 0, -5 * 60, -3600, -86400, 3600}
+	nas := []int64{unset, 0, 5 * 60, 3600, 86400, -3600}
 	var out []sfCase
 	for _, t := range sfWindowTargets {
 		for _, a := range mins {
